@@ -92,6 +92,8 @@ fn reference_of(sc: &ConnScenario) -> ConnScenario {
     r.client.cuts.clear();
     r.wplan.clear();
     r.client.coalesce = false;
+    // (a length prefix with padding groups is the same frame: the undisturbed execution is the one with minimal prefixes)
+    r.client.len_pad = 0;
     r
 }
 
@@ -384,6 +386,10 @@ fn generate(rng: &mut Rng, index: u64) -> C08Sc {
         base.client.cuts.clear();
         base.wplan.clear();
         sc.prelude = vec![abrupt_prelude(rng, &base)];
+    }
+    // frames whose length prefix carries padding groups (fixed-width prefixes as some proxies write them)
+    if rng.chance(1, 6) {
+        sc.client.len_pad = rng.range(1, 3) as u8;
     }
     C08Sc { sc, listener: None }
 }
